@@ -308,6 +308,28 @@ fn judge_text<'a, T: DiffableStr + ?Sized + std::fmt::Debug + 'a>(d: &'a TextDif
     if all != concat {
         return Err(format!("iter_all_changes {:?} != concatenation of per-op expansions {:?}", all, concat));
     }
+    // ops that do not come from this diff (hand-built, or computed on a normalised copy of the text):
+    // TextDiff::iter_changes expands any in-bounds op exactly as DiffOp::iter_changes does - an Equal
+    // op yields Equal changes carrying the old value whatever the new side holds
+    {
+        let (no, nn) = (d.old_slices().len(), d.new_slices().len());
+        let m = no.min(nn);
+        let foreign = [
+            DiffOp::Equal { old_index: 0, new_index: 0, len: m },
+            DiffOp::Equal { old_index: no - m, new_index: nn - m, len: m },
+            DiffOp::Equal { old_index: no - m.min(1), new_index: 0, len: m.min(1) },
+            DiffOp::Replace { old_index: 0, old_len: no, new_index: 0, new_len: nn },
+            DiffOp::Delete { old_index: 0, old_len: no, new_index: nn },
+            DiffOp::Insert { old_index: no, new_index: 0, new_len: nn },
+        ];
+        for op in &foreign {
+            let via_diff = flat(d.iter_changes(op));
+            let direct = flat(op.iter_changes(d.old_slices(), d.new_slices()));
+            if via_diff != direct {
+                return Err(format!("TextDiff::iter_changes({:?}) (an op that is not one of the diff's own) {:?} != DiffOp::iter_changes over the token slices {:?}", op, via_diff, direct));
+            }
+        }
+    }
     let tup = |c: Change<&'a T>| (c.tag(), c.old_index(), c.new_index(), c.value());
     consumers_agree("iter_all_changes", || d.iter_all_changes(), tup, &concat, radius)?;
     let mut ud = d.unified_diff();
@@ -483,7 +505,7 @@ impl Prop for C13 {
     type Case = Case;
     const ID: &'static str = "C13";
     fn rule() -> String {
-        "cases = Op(one op of any of the four kinds with arbitrary offsets/lengths, expanded against injectively valued sequences old[i]=i, new[j]=10^6+j so that any old/new or index mix-up changes a value) | Text(text diff, radius: whole-diff iteration and hunk iteration); enumeration of all ops with offsets and lengths in 0..4. Oracle: exact expected (tag, old_index, new_index, value) vector per kind; iter_slices items == item-wise expansion with 1 (Replace: 2) slices; a generated iterator-protocol script (mix of next()/nth(k)) walks the same expansion, size_hint brackets the remainder, count/last/step_by agree, and after 0, 1, 2 or j next() calls the fold-based consumers (fold, for_each, count, last, find, skip, a peeked Peekable) yield exactly the rest; iter_all_changes / UnifiedDiffHunk::iter_changes (hunks from iter_hunks and hunks built by hand from the changes only, from the reversed op list, from all radius-0 groups concatenated (zero-length Equal ops in the middle) from the op list interleaved with zero-length ops of every kind, from the op list with every Equal turned into a Replace over the same ranges, from the groups of radius 1 and 2 concatenated, and from the raw script of the algorithm without Compact/Replace) == concatenation of per-op expansions and every value is the token at its index; apply_to_hook(Capture) reproduces the op; as_tag_tuple ranges. Non-trivial = old_index != new_index and (Replace) old_len != new_len, or a text diff with >= 2 ops; distinct = distinct serialized case.".into()
+        "cases = Op(one op of any of the four kinds with arbitrary offsets/lengths, expanded against injectively valued sequences old[i]=i, new[j]=10^6+j so that any old/new or index mix-up changes a value) | Text(text diff, radius: whole-diff iteration and hunk iteration); enumeration of all ops with offsets and lengths in 0..4. Oracle: exact expected (tag, old_index, new_index, value) vector per kind; iter_slices items == item-wise expansion with 1 (Replace: 2) slices; a generated iterator-protocol script (mix of next()/nth(k)) walks the same expansion, size_hint brackets the remainder, count/last/step_by agree, and after 0, 1, 2 or j next() calls the fold-based consumers (fold, for_each, count, last, find, skip, a peeked Peekable) yield exactly the rest; TextDiff::iter_changes == DiffOp::iter_changes also for in-bounds ops that are not the diff's own (an Equal op over unequal items, whole-side Replace / Delete / Insert); iter_all_changes / UnifiedDiffHunk::iter_changes (hunks from iter_hunks and hunks built by hand from the changes only, from the reversed op list, from all radius-0 groups concatenated (zero-length Equal ops in the middle) from the op list interleaved with zero-length ops of every kind, from the op list with every Equal turned into a Replace over the same ranges, from the groups of radius 1 and 2 concatenated, and from the raw script of the algorithm without Compact/Replace) == concatenation of per-op expansions and every value is the token at its index; apply_to_hook(Capture) reproduces the op; as_tag_tuple ranges. Non-trivial = old_index != new_index and (Replace) old_len != new_len, or a text diff with >= 2 ops; distinct = distinct serialized case.".into()
     }
     fn assumptions() -> Vec<String> {
         vec!["sequences are long enough for the op (in-bounds by construction)".into()]
